@@ -249,4 +249,8 @@ def run(tier):
     for m in iw["mismatches"]:
         if m["kind"] == "outcome":
             chk.violation({"kind": "imports-walk-outcome", "text": m.get("text"), "history": " ; ".join(m.get("history", []))}, m)
+    # (d) parsed programs with a history: every execution of a program gives the same answer whatever was parsed and run
+    # before in the process (MC_Codes.tla, every behaviour replayed in one process)
+    from vlib import codeswalk
+    codeswalk.run(chk, tier)
     return chk.finish()
